@@ -413,4 +413,9 @@ def evaluate_concat(lval, rval):
 
 
 def evaluate_logic(op, lval, rval):
+    # an error operand is the result of the comparison (the left one first)
+    if isinstance(lval, error.XLError):
+        return lval
+    if isinstance(rval, error.XLError):
+        return rval
     return OPERATOR_DICT[op](ExcelComparator(lval), rval)
